@@ -1,6 +1,43 @@
 import Driver.Util
-open Lean
+import Driver.Run
+import DoitModel.Model.RunFail
+open Lean DoitModel.Run
 namespace Driver.P05
-/-- handler for requests with `"model": "c05"` (property-specific monitors / model queries of C05; stub until built) -/
-def handle (_ : Json) : Json := Driver.err "model not implemented"
+/-! Handler for `{"model":"c05", …}`: same request as `{"model":"run","op":"accept"}` (task table, oracle, observed trace,
+exit code) plus `"recorded"`: for each task whether the dependency DB holds a success record for it after the run.
+Answers whether the model can produce the trace (the acceptor of `Driver/Run.lean`) and evaluates the C05 monitors of
+`Model/RunFail.lean` on the IMPLEMENTATION's trace. -/
+
+def handle (j : Json) : Json :=
+  let inp := Driver.Run.parseInput j
+  let n := jnat j "n"
+  match (jarr j "trace").mapM Driver.Run.parseEv with
+  | none => Driver.err "bad event in trace"
+  | some tr =>
+    let exit := jnat j "exit"
+    let errS := (j.getObjValAs? String "err").toOption.getD ""
+    let dual := inp.runner = .process
+    let r : Driver.Run.Rem := if dual then
+        (tr.filter (fun e => !Driver.Run.isWorkerEv e),
+         (List.range (inp.numProc + 1)).map fun w => tr.filter fun e => Driver.Run.isWorkerEv e && Driver.Run.workerOf e == w)
+      else (tr, [])
+    let (v, b) := Driver.Run.search inp dual tr.length exit (errS = "deadlock") (init inp) r {}
+    let recorded := Driver.Run.boolsOf j "recorded" false
+    let hasRec := jhas j "recorded"
+    let failed := (List.range n).filter (failedIn tr)
+    Json.mkObj [
+      ("accepted", Json.bool (v = .accepted)),
+      ("skipped", Json.bool (v = .budget || (v = .rejected && b.capped))),
+      ("matched", toJson b.matched),
+      ("expected", mkArr (b.expected.map fun es => mkArr (es.map Driver.Run.evJson))),
+      ("monitor", Json.mkObj [
+        ("C05_no_dependent_runs", Json.bool (monC05NoDependentRuns inp n tr)),
+        ("C05_serial_stops", Json.bool (monC05SerialStops inp tr)),
+        ("C05_continue_complete", Json.bool (monC05ContinueComplete inp n tr exit)),
+        ("C05_not_recorded", Json.bool (!hasRec || monC05NotRecorded n tr recorded))]),
+      ("failed", ofNats failed),
+      ("dependents", mkArr (failed.map fun d =>
+          ofNats ((List.range n).filter fun t => d ∈ depClosure inp n tr t))),
+      ("closure", ofNats (closureOf inp n tr))]
+
 end Driver.P05
